@@ -161,7 +161,6 @@ func enumJSON(e *env) {
 	st.flush()
 	e.r.Extra("json_bounds", bounds)
 	e.r.Extra("json_values", total)
-	e.r.Sample(map[string]any{"section": "json", "input": `{"":[-1,18446744073709551616],"true":"é\n\""}`, "functions": "tojson fromjson to_jq from_jq to_yaml from_yaml to_toml from_toml to_jsonl from_jsonl"})
 }
 
 func core_pick(e *env, q, t int) int {
